@@ -522,14 +522,63 @@ def check_nrpys(label, prediction):
     return fails
 
 
+def module_results_menu():
+    """(name, results saved for record 'recA' in their JSON form, the class's own from_json) for the analysis modules whose results
+    can be built without their external tools"""
+    from antismash.modules.lanthipeptides.specific_analysis import LanthiResults  # pylint: disable=import-outside-toplevel
+    from antismash.modules.lassopeptides.specific_analysis import LassoResults  # pylint: disable=import-outside-toplevel
+    from antismash.modules.sactipeptides.specific_analysis import SactiResults  # pylint: disable=import-outside-toplevel
+    from antismash.modules.thiopeptides.specific_analysis import ThioResults  # pylint: disable=import-outside-toplevel
+    from antismash.modules.t2pks.results import T2PKSResults  # pylint: disable=import-outside-toplevel
+    from antismash.modules.nrps_pks.results import NRPS_PKS_Results  # pylint: disable=import-outside-toplevel
+    from antismash.modules import nrps_pks, t2pks  # pylint: disable=import-outside-toplevel
+    for cls in (LanthiResults, LassoResults, SactiResults, ThioResults):
+        yield cls.__name__, cls, cls.from_json
+    # (their from_json ignores the record, so the module's own regeneration function is where a foreign record can be noticed)
+    yield "T2PKSResults", T2PKSResults, lambda data, rec: t2pks.regenerate_previous_results(data, rec, None)
+    yield "NRPS_PKS_Results", NRPS_PKS_Results, lambda data, rec: nrps_pks.regenerate_previous_results(data, rec, None)
+
+
+def check_foreign_record(name, cls, regenerate):
+    """results saved for one record must not be taken for another ('discarded or refused rather than silently reinterpreted')"""
+    from mc.universe import worlds as W  # pylint: disable=import-outside-toplevel
+    fails = []
+    saved = as_json.loads(as_json.dumps(cls("recA").to_json()))
+    for rid, own in (("recA", True), ("recB", False)):
+        rec = W.make_record(60, False)
+        rec.id = rid
+        try:
+            got = regenerate(as_json.loads(as_json.dumps(saved)), rec)
+        except Exception as err:  # pylint: disable=broad-except
+            if own:
+                fails.append(("own-results-refused", f"{name}: {type(err).__name__}: {str(err)[:100]}"))
+            continue
+        if own and got is None:
+            fails.append(("own-results-refused", f"{name}: discarded"))
+        if not own and got is not None:
+            fails.append(("foreign-record-results-accepted", f"{name}: results saved for recA regenerated against {rid} (now labelled {got.record_id})"))
+    return fails
+
+
 def shards(tier):
     depth = 4 if tier == "quick" else 6
-    return [[fam, spec, depth] for fam, spec in objects(tier)] + [["values:nrpys", None, 3]]
+    return [[fam, spec, depth] for fam, spec in objects(tier)] + [["values:nrpys", None, 3], ["values:foreign-record", None, 1]]
 
 
 def run_shard(shard):
     fam, spec, depth = shard
     res = Result()
+    if fam == "values:foreign-record":
+        for name, cls, regenerate in module_results_menu():
+            res.evals += 2
+            res.nontrivial += 2
+            res.buckets["values:foreign-record"] += 1
+            fails = check_foreign_record(name, cls, regenerate)
+            res.outcomes[("foreign-record", name, tuple(c for c, _ in fails))] += 1
+            for clause, detail in fails:
+                res.fail({"family": fam, "label": name}, clause, detail)
+        res.extra["traces_validated_against_impl"] = res.evals
+        return res
     if fam == "values:nrpys":
         for label, prediction in nrpys_predictions():
             res.evals += 3
@@ -556,6 +605,8 @@ def finalize(cov, tier):
 
 
 def replay(case):
+    if case["family"] == "values:foreign-record":
+        return [f for name, cls, regen in module_results_menu() if name == case["label"] for f in check_foreign_record(name, cls, regen)]
     if case["family"] == "values:nrpys":
         return [f for label, prediction in nrpys_predictions() if label == case["label"] for f in check_nrpys(label, prediction)]
     res = Result()
